@@ -4,18 +4,31 @@ import CoupeModel.Driver.Util
 namespace Coupe.Driver.C13
 open Coupe.Ckk Coupe.Driver
 
-/-- `T::from_f64(sum.to_f64().unwrap() * tolerance).unwrap()` for `T = i64`
-(num-traits: `None` outside the `i64` range or for NaN, else truncation). -/
-def convTol (sum : Int) (tolBits : Nat) : Option Int :=
-  let x := Float.ofInt sum * Float.ofBits (UInt64.ofNat tolBits)
-  if x.isNaN then none
-  else if x < -9223372036854775808.0 || x ≥ 9223372036854775808.0 then none
-  else some x.toInt64.toInt
+/-- The integer weight types `CkkWeight` admits in the harness: (exclusive upper bound 2^k of
+the type, signed). -/
+def tyBound : String → Option Nat
+  | "i64" => some 9223372036854775808
+  | "i32" => some 2147483648
+  | "u32" => some 4294967296
+  | "u64" => some 18446744073709551616
+  | _ => none
 
-/-- op: `ckk <tol bits hex> <n> <w_0> … <w_{n-1}> <m> <p_0> … <p_{m-1}>` -/
-def handle (toks : List String) : String :=
-  match toks with
-  | "ckk" :: tb :: n :: rest =>
+/-- `T::from_f64(sum.to_f64().unwrap() * tolerance)` (num-traits: `None` outside the type's
+range or for NaN, else truncation), followed by the fall-back of the repaired code (N10):
+when the conversion fails although the bound is at least the (rounded) sum — the sum rounded to
+a float lies just above the type's maximum — the sum itself is the bound. `none` = the `unwrap`
+panics. For non-negative sums and tolerances the lower range bound is never met. -/
+def convTolT (hi : Nat) (sum : Int) (tolBits : Nat) : Option Int :=
+  let sf := Float.ofInt sum
+  let x := sf * Float.ofBits (UInt64.ofNat tolBits)
+  if x.isNaN then none
+  else if x ≤ -1.0 then none
+  else if x ≥ Float.ofNat hi then (if x ≥ sf then some sum else none)
+  else some (Int.ofNat x.toUInt64.toNat)
+
+def convTol (sum : Int) (tolBits : Nat) : Option Int := convTolT 9223372036854775808 sum tolBits
+
+def handleT (hi : Nat) (tb n : String) (rest : List String) : String :=
     match (do
       let tb ← parseHex? tb
       let n ← parseNat? n
@@ -28,9 +41,10 @@ def handle (toks : List String) : String :=
       | [] => none) with
     | none => "bad-op"
     | some (tb, ws, p) =>
-      if ws.length ≠ p.length then "lenmismatch"
+      if ws.any (· < 0) || ws.sum ≥ Int.ofNat hi then "out-of-contract"
+      else if ws.length ≠ p.length then "lenmismatch"
       else if ws.isEmpty then "ok" else
-      match convTol ws.sum tb with
+      match convTolT hi ws.sum tb with
       | none => "panic"
       | some tol =>
         match run {} p ws tol with
@@ -38,6 +52,17 @@ def handle (toks : List String) : String :=
         | .notFound => "notfound " ++ toString tol
         | .lenMismatch => "lenmismatch"
         | .abort => "abort"
+
+/-- op: `ckk <tol bits hex> <n> <w_0> … <w_{n-1}> <m> <p_0> … <p_{m-1}>` (i64 weights) or
+`ckkt <i32|u32|i64|u64> <tol bits hex> <n> …` (the same search; only the conversion of the bound
+depends on the type). -/
+def handle (toks : List String) : String :=
+  match toks with
+  | "ckk" :: tb :: n :: rest => handleT 9223372036854775808 tb n rest
+  | "ckkt" :: ty :: tb :: n :: rest =>
+    match tyBound ty with
+    | some hi => handleT hi tb n rest
+    | none => "bad-op"
   | _ => "bad-op"
 
 end Coupe.Driver.C13
